@@ -1,6 +1,6 @@
 use rusty_bit_vec::MAX_INTEGER;
 use rusty_common::Positioned;
-use rusty_parser::{AsBareName, Expression, TypeQualifier};
+use rusty_parser::{AsBareName, Expression, ExpressionType, TypeQualifier};
 use rusty_variant::Variant;
 
 use crate::core::{ConstLookup, LintError};
@@ -48,6 +48,12 @@ impl<C: ConstLookup + ?Sized> ValidateStringLength<LintError, C> for Expression 
 
                 Err(LintError::InvalidConstant)
             }
+            // a name with dots such as `A.B` can be the name of a constant
+            Self::Property(_, _, _) => match self.fold_name() {
+                Some(folded_name) => Self::Variable(folded_name, ExpressionType::Unresolved)
+                    .validate_string_length(const_lookup),
+                _ => Err(LintError::InvalidConstant),
+            },
             _ => Err(LintError::InvalidConstant),
         }
     }
